@@ -311,17 +311,35 @@ def run(spec, ctx):
                             ctx.violation("entry-point-raised:%s.%s:%s" % (lname, ename, form), case, {"text": text, "error": o.desc()})
                             failed = True
                             break
+                        if ename in ("finditer", "query") and hasattr(d, "close") and r.random() < 0.5:
+                            # the stream is the caller's: once the call has returned, the caller may close it, or rewind and
+                            # rewrite it - the result must already hold the document that was on the stream
+                            if isinstance(d, io.StringIO) and r.random() < 0.5:
+                                d.seek(0)
+                                d.truncate()
+                                d.write('{"a": ["another document"], "b": {"a": 1}}')
+                                d.seek(0)
+                                ctx.count("streams_rewritten_before_the_lazy_result_was_read")
+                            else:
+                                d.close()
+                                ctx.count("streams_closed_before_the_lazy_result_was_read")
+                        if ename in ("finditer", "query"):
+                            drained = impl.call(lambda: list(o.value) if ename == "finditer" else list(o.value.values()))
+                            if not drained.ok:
+                                ctx.violation("lazy-result-raised-when-read-after-the-call-returned:%s.%s:%s" % (lname, ename, form), case, {"text": text, "error": drained.desc()})
+                                failed = True
+                                break
                         if ename == "findall":
                             got = [canon(v) for v in o.value]
                             ok = got == want_vals
                         elif ename == "finditer":
-                            got = recs(o.value)
+                            got = recs(drained.value)
                             ok = got == want
                         elif ename == "match":
                             got = None if o.value is None else (tuple(o.value.parts), canon(o.value.obj))
                             ok = got == (want[0] if want else None)
                         else:
-                            got = [canon(v) for v in o.value.values()]
+                            got = [canon(v) for v in drained.value]
                             ok = got == want_vals
                         ctx.cell("entry_point_calls", "%s.%s %s" % (lname, ename, form))
                         if not ok:
